@@ -35,6 +35,7 @@ fn main() {
         Some("replay") => driver::main_replay(&args[2..]),
         Some("shrink") => driver::main_shrink(&args[2..]),
         Some("isolated") => props::main_isolated(),
+        Some("miri-stage") => driver::main_miri_stage(&args[2..]),
         Some("fingerprint") => driver::main_fingerprint(&args[2..]),
         Some("probe-chain") => {
             // experiment: n make_refs then make_mut / teardown on a small stack
